@@ -1073,7 +1073,7 @@ Theorem release_only_when_licensed_l w o x e q :
   lost (w_ipam (pstep w o).1) x (pod_key q) → licence w o x q (w_ipam (pstep w o).1).
 Proof.
   intros Hw Hwf He Wq Hk. pose proof (wi_ipam w Hw) as Hi.
-  destruct o as [ev|key nodes orc fl|ns name uid node orc fl|n orc oun fl|ip orc ocl fl|k ip ocl fl|key fl|io|conf].
+  destruct o as [ev|key nodes orc fl|ns name uid node orc fl|n orc oun fl|ip orc ocl fl|k ip ocl fl|sp fl|io|conf].
   - intros Hl. exfalso. apply (lost_keeps _ _ _ Hl). exists e. split; [|done]. cbn [pstep fst]. by apply env_step_keeps.
   - intros Hl. exfalso. apply (lost_keeps _ _ _ Hl). exists e. split; [|done]. cbn [pstep].
     destruct (w_pods w !! key) as [p|]; [|done].
@@ -1086,7 +1086,8 @@ Proof.
   - by eapply resync_licence.
   - by eapply api_release_licence.
   - intros Hl. exfalso. apply (lost_keeps _ _ _ Hl). exists e. split; [|done]. cbn [pstep].
-    destruct (w_lister w !! key) as [p|]; [|done]. cbn [fst]. by apply sync_pod_ip_keeps.
+    cbn [fst]. unfold sync_given. destruct (w_lister w !! pk sp) as [cur|]; [|by apply sync_pod_ip_keeps].
+    destruct (str_eqb (pd_uid cur) (pd_uid sp)); [by apply sync_pod_ip_keeps|done].
   - destruct io; cbn [wf_op] in Hwf; try done. destruct Hwf as [-> _]. cbn [pstep fst set_ipam w_ipam].
     destruct (step (w_ipam w) (OConfigure conf listfail [])) as [[s' r] l] eqn:Es. cbn [fst].
     intros Hl. destruct (configure_keeps_or _ _ _ _ _ _ x e Hi Es He) as [Hkp|(ps & Hd & Hc)].
@@ -1283,16 +1284,18 @@ Definition c03_wf_op_b (w : world) (o : pop) : bool :=
   | PIpam (OConfigure _ _ []) => bool_decide (w_pods w = ∅)
   | PIpam _ => false
   | PRestart _ => false
+  | PSyncPod p _ => c03_wf_pod_b p
   | _ => true
   end.
 Lemma c03_wf_op_b_sound w o : c03_wf_op_b w o = true → wf_op w o.
 Proof.
-  destruct o as [ev|key nodes orc fl|ns name uid node orc fl|n orc oun fl|ip orc ocl fl|k ip ocl fl|key fl|io|conf];
+  destruct o as [ev|key nodes orc fl|ns name uid node orc fl|n orc oun fl|ip orc ocl fl|k ip ocl fl|sp fl|io|conf];
     cbn [c03_wf_op_b wf_op]; try done.
   - destruct ev; cbn [wf_env]; try done. intros H. apply andb_true_iff in H as [H H4].
     apply andb_true_iff in H as [H H3]. apply andb_true_iff in H as [H1 H2].
     split_and!; [by apply c03_wf_pod_b_sound|by destruct (pd_ips p)|by destruct (pd_node p)|by apply c03_fresh_b_sound].
   - intros H. by destruct uid.
+  - apply c03_wf_pod_b_sound.
   - destruct io; try done. destruct delfail; [|done]. intros H. apply bool_decide_eq_true in H. split; [done|].
     intros ps _ k p x Hp. rewrite H in Hp. by rewrite lookup_empty in Hp.
 Qed.
